@@ -410,3 +410,39 @@ def constants_check(db, rep, rule, cfg, layouts=True, other=()):
                 bad.append(f'{path.split("::")[-1]} = {cur} (confirmed value {v})')
         rep.ob(rule, f'consts/{prefix}', not bad, f'{k} constants under {prefix}' + (f'; changed: {bad[:4]}' if bad else ' agree with the table'), '', cfg)
     return n
+
+
+def struct_signatures(db, fn, binding=None):
+    """{'<Adt>.<field>': signature} for every struct literal built in fn: the source fields (canonical paths of the
+    parameters), operations, constants by value and constant indices each field is computed from"""
+    import re
+    import dataflow
+    import fieldflow
+    import guardtable as GT
+    fl = dataflow.Flow(db, fn, binding)
+
+    def sig(lv):
+        out = set()
+        for x in GT.norm_side(db, lv):
+            if x.startswith(('op:', 'val:', 'lit:', 'idx:')):
+                out.add(x)
+            elif re.match(r'^a\d', x):
+                out.add(fieldflow.canon(x))
+            elif x.startswith('const:'):
+                out.add(x.split('=')[0])
+            elif x.startswith('call:'):
+                out.add('call:' + x[5:].split('#')[0].split('::')[-1])
+        return sorted(out)
+    d = {}
+    for b in fn.blocks:
+        if b.get('cleanup'):
+            continue
+        for st in b['stmts']:
+            if st['k'] == 'assign' and st['rv'].get('k') == 'agg' and st['rv'].get('agg') == 'adt' and st['rv'].get('fields'):
+                adt = st['rv'].get('adt', '')
+                if adt.startswith(('core::', 'alloc::')) or 'Error' in adt:
+                    continue
+                for k, o in zip(st['rv']['fields'], st['rv']['ops']):
+                    key = f'{adt.split("::")[-1]}.{k}'
+                    d[key] = sorted(set(d.get(key, [])) | set(sig(fl.operand_leaves(o))))
+    return d
